@@ -19,8 +19,8 @@ package (`monitors.rebind_everywhere`), i.e. they are hit by `svd_qn.svd_qn(...)
 Counters (all through monitors.bump, so they appear in the evidence of whatever property drains them):
     svd_qn_contract_evals, svd_qn_contract_evals:<mode>, svd_qn_callsite_evals, svd_qn_multi_sector_evals,
     eigh_qn_contract_evals, eigh_qn_callsite_evals, eigh_qn_input_not_psd,
-    krylov_contract_evals, krylov_callsite_evals, krylov_materialised, krylov_too_large_skipped,
-    krylov_post_checked, krylov_nonhermitian_map, krylov_nonlinear_map, krylov_exit:<branch>, krylov_buffer_growth,
+    krylov_contract_evals, krylov_callsite_evals, krylov_callsite_post_checked, krylov_materialised, krylov_too_large_skipped,
+    krylov_post_checked, krylov_outside_moderate_range, krylov_nonhermitian_map, krylov_nonlinear_map, krylov_exit:<branch>, krylov_buffer_growth,
     kernel_contract_internal_error
 
 Precondition observations (the caller's obligation, therefore NOT a violation of C18): appended to OBSERVATIONS as
@@ -44,6 +44,8 @@ RECON_TOL = 1e-10       # relative to the Frobenius norm of the symmetry-allowed
 SUPPORT_TOL = 1e-12     # relative to max|U|
 KRYLOV_RTOL = 1e-4      # ten times the kernel's own successive-iterate allclose(rtol=1e-5, atol=1e-8)
 KRYLOV_ATOL = 1e-7
+KRYLOV_MAX_NORM_DT = 20.0   # the postcondition is judged for ||A||_2 |dt| up to this value (C18: "moderate range")
+NEGLIGIBLE = 1e-12       # |dt| * (defect of the map) below this cannot be seen in exp(dt*A)v
 HERMITIAN_TOL = 1e-9    # ||M - M^H||_F / ||M||_F above which the map is reported as non-Hermitian
 
 
@@ -91,10 +93,18 @@ def call_site():
     return "direct"
 
 
+_AMBIENT = {}
+
+
 def _guard(name, fn, *args, **kwargs):
     """Run a contract body; an exception inside the harness's own oracle must be loud, never a library crash."""
+    # the repository switches numpy to raise on overflow/invalid/divide (utils/log.py); the oracle's own arithmetic
+    # must not raise, but callables of the library are still invoked under the ambient setting (see _materialise)
+    _AMBIENT.clear()
+    _AMBIENT.update(np.geterr())
     try:
-        fn(*args, **kwargs)
+        with np.errstate(all="ignore"):
+            fn(*args, **kwargs)
     except Exception as e:  # noqa: BLE001
         import traceback
         monitors.bump("kernel_contract_internal_error")
@@ -157,6 +167,9 @@ def check_svd_qn(coef_array, qnbigl, qnbigr, qntot, QR, system, full_matrices, o
     ma = np.where(mask, a, 0)
     scale = float(np.linalg.norm(ma))
     mode = svd_qn_mode(QR, system, full_matrices)
+    if not np.isfinite(scale) or not np.isfinite(scale * scale):
+        monitors.bump("svd_qn_contract_skipped_nonfinite_or_huge_input")
+        return None
     monitors.bump("svd_qn_contract_evals")
     monitors.bump("svd_qn_contract_evals:" + mode)
     if where != "direct":
@@ -291,6 +304,9 @@ def check_eigh_qn(dm, qnbigl, qnbigr, qntot, system, result, where):
     def bad(what, **detail):
         monitors.record(f"eigh_qn|{system}|{what}", **info, **detail)
 
+    if not np.all(np.isfinite(d)) or not np.isfinite(float(np.linalg.norm(d)) ** 2):
+        monitors.bump("eigh_qn_contract_skipped_nonfinite_or_huge_input")
+        return None
     if len(result) != 3:
         return bad("arity", got=len(result))
     u, s, qn = result
@@ -442,7 +458,8 @@ def _materialise(afunc, vstart):
     n = len(v)
     dt = v.dtype if v.dtype.kind in "fc" else np.dtype(float)
     eye = np.eye(n, dtype=dt)
-    cols = [np.array(afunc(eye[i].copy())).ravel() for i in range(n)]
+    with np.errstate(**(_AMBIENT or np.geterr())):
+        cols = [np.array(afunc(eye[i].copy())).ravel() for i in range(n)]
     m = np.stack(cols, axis=1)
     return m
 
@@ -458,7 +475,11 @@ def check_krylov_pre(Afunc, dt, vstart, block_size, where):
     if n > _CFG["max_dim"] or n == 0 or v.ndim != 1:
         monitors.bump("krylov_too_large_skipped")
         return
-    m = _materialise(Afunc, v)
+    try:
+        m = _materialise(Afunc, v)
+    except FloatingPointError:
+        monitors.bump("krylov_materialise_floating_point_error")
+        return
     monitors.bump("krylov_materialised")
     if not np.all(np.isfinite(m)):
         monitors.bump("krylov_nonfinite_map")
@@ -469,14 +490,22 @@ def check_krylov_pre(Afunc, dt, vstart, block_size, where):
     x = rs.normal(size=n)
     if v.dtype.kind == "c":
         x = x + 1j * rs.normal(size=n)      # the probe has the dtype kind of the start vector, as the Lanczos basis has
-    ax = np.array(Afunc(x.copy())).ravel()
-    if float(np.linalg.norm(ax - m @ x)) > 1e-8 * (nm * float(np.linalg.norm(x)) + 1e-300):
+    try:
+        with np.errstate(**(_AMBIENT or np.geterr())):
+            ax = np.array(Afunc(x.copy())).ravel()
+    except FloatingPointError:
+        monitors.bump("krylov_materialise_floating_point_error")
+        return
+    adt = abs(complex(dt))
+    lin_defect = float(np.linalg.norm(ax - m @ x)) / float(np.linalg.norm(x))
+    # a defect whose effect on exp(dt*A) is below 1e-12 is rounding noise of a (numerically) vanishing map
+    if lin_defect > 1e-8 * nm and lin_defect * adt > NEGLIGIBLE:
         monitors.bump("krylov_nonlinear_map")
         OBSERVATIONS.append({"kind": "krylov-nonlinear-map", "where": where, "dim": n})
         return
     rel = float(np.linalg.norm(m - m.conj().T)) / max(nm, 1e-300)
     state["m"], state["rel_antiherm"], state["norm"] = m, rel, nm
-    state["hermitian"] = rel <= HERMITIAN_TOL
+    state["hermitian"] = rel <= HERMITIAN_TOL or rel * nm * adt <= NEGLIGIBLE
     if not state["hermitian"]:
         monitors.bump("krylov_nonhermitian_map")
         OBSERVATIONS.append({"kind": "krylov-nonhermitian-map", "rel_antiherm": rel, "dim": n, "where": where,
@@ -485,6 +514,22 @@ def check_krylov_pre(Afunc, dt, vstart, block_size, where):
 
 def krylov_class(start_complex, map_complex):
     return f"{'complex' if start_complex else 'real'}-start-{'complex' if map_complex else 'real'}-map"
+
+
+def dt_class(dt):
+    z = complex(dt)
+    if z.imag == 0:
+        return "real"
+    if z.real == 0:
+        return "imaginary"
+    return "complex"
+
+
+def krylov_signature(start_complex, map_complex, dt, what):
+    """Mechanism signature of a Krylov violation; generic complex dt (outside the statement's 'real or imaginary dt')
+    is kept apart by a suffix."""
+    sig = f"krylov|{krylov_class(start_complex, map_complex)}|{what}"
+    return sig + ("|complex-dt" if dt_class(dt) == "complex" else "")
 
 
 def dense_expm_apply(mh, dt, v):
@@ -513,25 +558,37 @@ def check_krylov_post(Afunc, dt, vstart, block_size, result, where):
     r = np.asarray(r)
     mh = (m + m.conj().T) / 2
     imag_rel = float(np.linalg.norm(mh.imag)) / max(float(np.linalg.norm(mh)), 1e-300) if mh.dtype.kind == "c" else 0.0
-    cls = krylov_class(v.dtype.kind == "c", imag_rel > 1e-12)
-    ref = dense_expm_apply(mh, dt, v)
+    def sig(what):
+        return krylov_signature(v.dtype.kind == "c", imag_rel > 1e-12, dt, what)
+
+    w, x = np.linalg.eigh(mh)
+    tau = float(np.max(np.abs(w))) * abs(complex(dt)) if len(w) else 0.0
+    LAST_KRYLOV["norm_A_dt"] = tau
+    if not np.isfinite(tau) or tau > KRYLOV_MAX_NORM_DT * (1 + 1e-9):
+        # outside "the moderate range it is used for": observed, not judged
+        monitors.bump("krylov_outside_moderate_range")
+        OBSERVATIONS.append({"kind": "krylov-outside-moderate-range", "norm_A_dt": tau, "dim": n, "where": where})
+        return
+    ref = x @ (np.exp(dt * w) * (x.conj().T @ v))
     monitors.bump("krylov_post_checked")
+    if where != "direct":
+        monitors.bump("krylov_callsite_post_checked")
     info = {"where": where, "n": n, "block_size": int(block_size), "dt": complex(dt), "iterations": int(nvec),
-            "norm_A_dt": state["norm"] * abs(complex(dt)), "exit": LAST_KRYLOV.get("exit"),
+            "norm_A_dt": tau, "exit": LAST_KRYLOV.get("exit"),
             "start_dtype": str(v.dtype), "map_dtype": str(m.dtype), "result_dtype": str(r.dtype)}
     if r.shape != ref.shape:
-        monitors.record(f"krylov|{cls}|result-shape", got=list(r.shape), **info)
+        monitors.record(sig("result-shape"), got=list(r.shape), **info)
         return
     if not np.all(np.isfinite(r)):
-        monitors.record(f"krylov|{cls}|nonfinite", **info)
+        monitors.record(sig("nonfinite"), **info)
         return
     err = float(np.linalg.norm(r - ref))
     tol = krylov_tolerance(ref, v)
     LAST_KRYLOV["contract_err_over_tol"] = err / tol
     if err > tol:
-        monitors.record(f"krylov|{cls}|dense-mismatch", err=err, tol=tol, ref_norm=float(np.linalg.norm(ref)), **info)
+        monitors.record(sig("dense-mismatch"), err=err, tol=tol, ref_norm=float(np.linalg.norm(ref)), **info)
     if not (1 <= int(nvec) <= n):
-        monitors.record(f"krylov|{cls}|iteration-count-out-of-range", **info)
+        monitors.record(sig("iteration-count-out-of-range"), **info)
 
 
 _CFG = {"max_dim": 400}
